@@ -191,6 +191,8 @@ def export_world_edges(consts):
     with open(cfg, "w") as f:
         if "Events" not in consts:
             consts = dict(consts, Events="FALSE")
+        if "Loops" not in consts:
+            consts = dict(consts, Loops="TRUE")
         f.write("SPECIFICATION Spec\nCONSTANTS\n" + "".join("  %s = %s\n" % kv for kv in consts.items()) +
                 "  Edges = TRUE\nINVARIANTS RepInv CrossWorldSafe EventsOk\nPROPERTY RefinesW\nCHECK_DEADLOCK FALSE\n")
     rc, out, dt = run_tlc("WorldMC", cfg=cfg, workers=8, timeout=3000)
@@ -304,6 +306,11 @@ def render_world(edges, paths, a):
                 lines.append("%s %d %d" % (e["op"], e["arg"][0] - 1, e["arg"][1] - 1))
             elif e["op"] == "drop":
                 lines.append("drop %d" % (e["arg"][0] - 1))
+            elif e["op"] == "loop_destroy":
+                # ecs_iter_destroy! with menu 5 (EntityAny, EntityDirectAny, &mut OneOf: matches every archetype, the others are empty;
+                # menus 0 and 3 rotate closure shapes, one of which cannot destroy), ContinueDestroy for the flagged handles
+                w, flagged = e["arg"]
+                lines.append("loop %d 5 iter_destroy c %s" % (w - 1, " ".join("H%d=cd" % issued[tuple(h)] for h in flagged)))
             elif e["op"] == "clear_events":
                 # world-level and archetype-level clear alternate
                 lines.append("clear_events %d" % (e["arg"][0] - 1) + ((" %d" % a) if counter % 2 else ""))
